@@ -68,6 +68,8 @@ def codec_check(res, known, args):
         if "skipped" in p:
             continue
         for lang, e in p["langs"].items():
+            if "error" in e:
+                continue            # the generator refused the program with an error: no code to judge
             if "panic" in e:
                 res.violation({"kind": "generator-panic", "program": prog_id, "lang": lang, "dsl": p["text"], "panic": e["panic"],
                                "frames": e.get("frames")}, found=True)
